@@ -154,3 +154,4 @@ func verifRoundTripHeader(w *writer) (format uint16, ntr uint16, tf TimeFormat, 
 //@ ensures [P:C01] err == nil && format == w.SMF.format && ntr == w.SMF.numTracks
 //@ ensures [P:C01] tfMetricOK(w.SMF.TimeFormat) ==> (typeof(tf) == typeid(MetricTicks) && uint16(bval(tf)) == uint16(bval(w.SMF.TimeFormat)))
 //@ ensures [P:C01] tfSmpteOK(w.SMF.TimeFormat) ==> (typeof(tf) == typeid(TimeCode) && asptr(tf, TimeCode).FramesPerSecond == asptr(w.SMF.TimeFormat, TimeCode).FramesPerSecond && asptr(tf, TimeCode).SubFrames == asptr(w.SMF.TimeFormat, TimeCode).SubFrames)
+
